@@ -1,8 +1,10 @@
 package main
 
 import (
+	"sort"
 	"strconv"
 	"strings"
+	"sync"
 
 	"github.com/openconfig/goyang/pkg/yang"
 )
@@ -27,4 +29,65 @@ func init() {
 		}
 		return strings.Join(out, " | ")
 	}
+
+	// rangeapi <range tok>     a YangRange built by hand (bounds may carry different fraction digits)
+	// -> "less=<t|f for every pair i,j in row order> sorted=<t|f sort.IsSorted> valid=<t|f Validate() == nil>
+	//     sort=<the range after Sort()> validsorted=<t|f Validate() of that>"
+	handlers["rangeapi"] = func(t []string) string {
+		r := parseRangeTok(t[0])
+		var less strings.Builder
+		for i := range r {
+			for j := range r {
+				less.WriteString(tf(r.Less(i, j)))
+			}
+		}
+		if less.Len() == 0 {
+			less.WriteString("-")
+		}
+		out := "less=" + less.String() + " sorted=" + tf(sort.IsSorted(r)) + " valid=" + tf(r.Validate() == nil)
+		r.Sort()
+		return out + " sort=" + showRange(r) + " validsorted=" + tf(r.Validate() == nil)
+	}
+
+	// stringpar <iterations> <v:fd:neg> <v:fd:neg> ...   one goroutine per number, all printing at the same time
+	// -> per number the hex of what String returned (every time the same), or MIXED:<hex of a deviating result>
+	handlers["stringpar"] = func(t []string) string {
+		iters, err := strconv.Atoi(t[0])
+		if err != nil {
+			panic("bad iterations")
+		}
+		nums := make([]yang.Number, 0, len(t)-1)
+		for _, x := range t[1:] {
+			f := strings.Split(x, ":")
+			nums = append(nums, mkNumber(f[0], f[1], f[2]))
+		}
+		res := make([]string, len(nums))
+		var wg sync.WaitGroup
+		start := make(chan struct{})
+		for i := range nums {
+			wg.Add(1)
+			go func(i int) {
+				defer wg.Done()
+				<-start
+				first := nums[i].String()
+				res[i] = enhex([]byte(first))
+				for k := 1; k < iters; k++ {
+					if s := nums[i].String(); s != first {
+						res[i] = "MIXED:" + enhex([]byte(s))
+						return
+					}
+				}
+			}(i)
+		}
+		close(start)
+		wg.Wait()
+		return strings.Join(res, " ")
+	}
+}
+
+func tf(b bool) string {
+	if b {
+		return "t"
+	}
+	return "f"
 }
